@@ -34,12 +34,16 @@ def uninit_state(b: Built) -> dict:
 
 
 def random_walk(b: Built, mi: int, engine: str, rng: random.Random, n_steps: int, gvals, tag: str,
-                with_can: bool) -> dict:
+                with_can: bool, burst: bool = False) -> dict:
     events = sorted(b.defn["events"])
     guards = sorted(b.defn["guards"])
     steps = [{"op": "start", "ev": "", "gv": {g: rng.choice(gvals) for g in guards}}]
     for _ in range(n_steps):
         op = "can" if (with_can and engine != "pure" and rng.random() < 0.15) else "send"
+        if burst and engine != "pure" and rng.random() < 0.3:
+            evs = [rng.choice(events) for _ in range(rng.randint(2, 40))]
+            steps.append({"op": "batch", "ev": evs[0], "evs": evs, "gv": {g: rng.choice(gvals) for g in guards}})
+            continue
         steps.append({"op": op, "ev": rng.choice(events), "gv": {g: rng.choice(gvals) for g in guards}})
     res = replay.RUNNERS[engine](b, steps)
     pre = uninit_state(b)
@@ -176,7 +180,7 @@ def unit(args: dict) -> dict:
         for w in range(n_walks):
             mi = rng.randrange(len(built)) + 1
             t = random_walk(built[mi - 1], mi, engine, rng, walk_len, list(args["gvals"]), f"walk:{w}",
-                            args.get("with_can", False))
+                            args.get("with_can", False), args.get("burst_walks", False))
             traces.append(t)
             trace_ctx.append((built[mi - 1], []))
             out["walk_traces"] += 1
